@@ -239,7 +239,7 @@ func c04Setup(ctx context.Context, client lungo.IClient, keys int, bank bool) er
 
 func runC04(c *fw.Ctx) {
 	c04Hammer(c)
-	n := c.N(160, 3200) / c.NBatches
+	n := c.N(160, 1600) / c.NBatches
 	for q := 0; q < n; q++ {
 		idx := c.Batch*n + q
 		if c.Skip(idx) {
